@@ -1224,3 +1224,44 @@ axiom('nerode', 'lemma', 'trues-store', ForAll([_td, _tv, _tk, _bb], trues(Store
 axiom('nerode', 'lemma', 'trues-empty', ForAll([_tv], trues(z3.K(TabK, False), _tv) == z3.K(TabK, False)))
 @spec('trues')
 def s_trues(ev, table): return SV(SET(TUP(INT, INT)), trues(map_dom(table), map_val(table)))
+
+
+# ---------------------------------------------------------------------- the quotient by Myhill-Nerode equivalence (theory quot)
+clsF = Function('cls', _DFAs, Atom, SetA)         # the equivalence class of x: the states of D that no word distinguishes from x
+def _dist(D, x, y): return distF(dfa_delta_val(D), rec_get(D, 'Sigma').z, rec_get(D, 'F').z, x, y)
+_Dsv = SV(REC('DFA'), _D)
+axiom('quot', 'def', 'cls-def', ForAll([_D, _x, _y], Select(clsF(_D, _x), _y) == And(Select(rec_get(_Dsv, 'Q').z, _y), Not(_dist(_Dsv, _x, _y)))))
+axiom('quot', 'lemma', 'cls-eq', ForAll([_D, _x, _y], Implies(Not(_dist(_Dsv, _x, _y)), clsF(_D, _x) == clsF(_D, _y))))
+axiom('quot', 'lemma', 'cls-congruence', ForAll([_D, _x, _y, _a], Implies(And(Not(_dist(_Dsv, _x, _y)), Select(rec_get(_Dsv, 'Sigma').z, _a)),
+      Not(_dist(_Dsv, Select(dfa_delta_val(_Dsv), mkKey2(_x, _a)), Select(dfa_delta_val(_Dsv), mkKey2(_y, _a)))))))
+def cname(Dz, x): return name_of_set(clsF(Dz, x))
+
+
+def quot_struct(D, R):
+    """R is the quotient of D by the Myhill-Nerode equivalence, with the printed class as state name"""
+    Q, Sg, Fz = rec_get(D, 'Q').z, rec_get(D, 'Sigma').z, rec_get(D, 'F').z
+    x, s, a = fresh_z('x', Atom), fresh_z('s', Atom), fresh_z('a', Atom)
+    dl = rec_get(R, 'delta')
+    return And(s_dfa_wf(None, D).z, rec_get(R, 'Sigma').z == Sg,
+               ForAll([s], Select(rec_get(R, 'Q').z, s) == Exists([x], And(Select(Q, x), s == cname(D.z, x)))),
+               rec_get(R, 'q0').z == cname(D.z, rec_get(D, 'q0').z),
+               ForAll([s], Select(rec_get(R, 'F').z, s) == Exists([x], And(Select(Fz, x), s == cname(D.z, x)))),
+               ForAll([x, a], Implies(And(Select(Q, x), Select(Sg, a)), And(Select(map_dom(dl), mkKey2(cname(D.z, x), a)),
+                                                                           Select(map_val(dl), mkKey2(cname(D.z, x), a)) == cname(D.z, Select(dfa_delta_val(D), mkKey2(x, a)))))))
+
+
+quot_b = Function('quot_struct', _DFAs, _DFAs, BoolSort())
+axiom('quot', 'def', 'quot_struct-def', ForAll([_D, _D2], quot_b(_D, _D2) == quot_struct(_Dsv, SV(REC('DFA'), _D2))))
+_D2sv = SV(REC('DFA'), _D2)
+axiom('quot', 'lemma', 'quot-sim', ForAll([_D, _D2, _x, _w], Implies(And(quot_b(_D, _D2), Select(rec_get(_Dsv, 'Q').z, _x), over(rec_get(_Dsv, 'Sigma').z, _w)),
+      dhat(dfa_delta_val(_D2sv), cname(_D, _x), _w) == cname(_D, dhat(dfa_delta_val(_Dsv), _x, _w)))))
+def _acc(D, w): return Select(rec_get(D, 'F').z, dhat(dfa_delta_val(D), rec_get(D, 'q0').z, w))
+axiom('quot', 'lemma', 'quot-lang', ForAll([_D, _D2, _w], Implies(And(quot_b(_D, _D2), over(rec_get(_Dsv, 'Sigma').z, _w)), _acc(_D2sv, _w) == _acc(_Dsv, _w))))
+_s1, _s2 = Consts('s1 s2', Atom)
+axiom('quot', 'lemma', 'quot-dist', ForAll([_D, _D2, _s1, _s2], Implies(And(quot_b(_D, _D2), Select(rec_get(_D2sv, 'Q').z, _s1), Select(rec_get(_D2sv, 'Q').z, _s2), _s1 != _s2), _dist(_D2sv, _s1, _s2))))
+
+
+@spec('cls')
+def s_cls(ev, D, x): return SV(SET(ATOM), clsF(D.z, x.z))
+@spec('quot_struct')
+def s_quot_struct(ev, D, R): return SV(BOOL, quot_b(D.z, R.z))
